@@ -2,6 +2,7 @@ package main
 
 import (
 	"go/types"
+	"strings"
 )
 
 // Encoder stubs for encoding/json, gopkg.in/yaml.v3 and go-toml/v2 (reflection-based libraries the engine
@@ -14,6 +15,9 @@ type encoderObj struct {
 	w    Iface
 	kind string
 	n    int // Encode calls so far on this encoder
+	// settings (their documented effect on the bytes is part of the stub's contract):
+	noEscapeHTML bool   // json SetEscapeHTML(false): differs from the default iff some name holds '<', '>' or '&'
+	layout       string // json SetIndent / yaml SetIndent / toml SetIndentTables...: a non-default layout differs for every record
 }
 
 func (e *Engine) registerEncIntrinsics() {
@@ -32,6 +36,14 @@ func (e *Engine) registerEncIntrinsics() {
 		}
 		eo := (*p).(*encoderObj)
 		s := concatStr(r.renderRecord(a[1]), strLit("\n"))
+		if eo.layout != "" {
+			s = concatStr(strLit("<layout "+eo.layout+">"), s)
+		}
+		if eo.noEscapeHTML {
+			if t := r.recordHasAny(a[1], "<>&"); t != nil && (t.Op == "true" || (t.Op != "false" && r.branch(t))) {
+				s = concatStr(strLit("<html-unescaped>"), s)
+			}
+		}
 		if eo.kind == "yaml" && eo.n > 0 {
 			// yaml.v3: every document after the first one of an encoder is preceded by the separator line
 			s = concatStr(strLit("---\n"), s)
@@ -44,6 +56,41 @@ func (e *Engine) registerEncIntrinsics() {
 		res := r.callFunc(fr, m, []Value{eo.w.V, BytesOf{S: s}}, nil).(Tuple)
 		return res[1]
 	}
+	setting := func(f func(eo *encoderObj, r *Run, a []Value)) intrinsicFn {
+		return func(r *Run, fr *frame, a []Value) Value {
+			p, ok := a[0].(Ptr)
+			if !ok || p == nil {
+				panic(goPanic{strLit("nil encoder")})
+			}
+			f((*p).(*encoderObj), r, a)
+			return nil
+		}
+	}
+	in["(*encoding/json.Encoder).SetEscapeHTML"] = setting(func(eo *encoderObj, r *Run, a []Value) {
+		b := a[1].(BoolV)
+		on := b.C
+		if b.S != nil {
+			on = r.branch(b.S)
+		}
+		eo.noEscapeHTML = !on
+	})
+	in["(*encoding/json.Encoder).SetIndent"] = setting(func(eo *encoderObj, r *Run, a []Value) {
+		pre, ind := a[1].(StrV), a[2].(StrV)
+		if !pre.isConcrete() || !ind.isConcrete() {
+			panic(unsupported("json SetIndent with symbolic strings"))
+		}
+		eo.layout = ""
+		if pre.concrete() != "" || ind.concrete() != "" {
+			eo.layout = "json " + pre.concrete() + "|" + ind.concrete()
+		}
+	})
+	in["(*gopkg.in/yaml.v3.Encoder).SetIndent"] = setting(func(eo *encoderObj, r *Run, a []Value) {
+		n := r.concreteInt(a[1], "yaml indent")
+		eo.layout = ""
+		if n != 4 && n >= 0 {
+			eo.layout = "yaml " + string(rune('0'+n%10))
+		}
+	})
 	in["encoding/json.NewEncoder"] = mkNew("json")
 	in["(*encoding/json.Encoder).Encode"] = enc
 	in["gopkg.in/yaml.v3.NewEncoder"] = mkNew("yaml")
@@ -67,6 +114,48 @@ func (e *Engine) registerEncIntrinsics() {
 	}
 	in["github.com/pelletier/go-toml/v2.NewEncoder"] = mkNew("toml")
 	in["(*github.com/pelletier/go-toml/v2.Encoder).Encode"] = enc
+}
+
+// recordHasAny: some name of the record contains one of the characters (a Bool term; nil for a nil record)
+func (r *Run) recordHasAny(v Value, chars string) *Term {
+	if i, ok := v.(Iface); ok {
+		if i.T == nil {
+			return mkBool(false)
+		}
+		v = i.V
+	}
+	p, ok := v.(Ptr)
+	if !ok || p == nil {
+		return mkBool(false)
+	}
+	st, ok := (*p).(Struct)
+	if !ok || len(st) != 2 {
+		return mkBool(false)
+	}
+	t := mkBool(false)
+	name := st[0].(StrV)
+	for _, g := range name.Segs {
+		switch {
+		case g.Atom != nil:
+			for _, c := range chars {
+				t = mkOr(t, mk("str.contains", sortBool, g.Atom, mkStrLit(string(c))))
+			}
+		case g.Byte != nil:
+			for _, c := range chars {
+				t = mkOr(t, mkEq(g.Byte, mkBV(uint64(c), 8)))
+			}
+		default:
+			if strings.ContainsAny(g.Lit, chars) {
+				return mkBool(true)
+			}
+		}
+	}
+	if ch, ok := st[1].(SliceV); ok {
+		for _, c := range ch.Data {
+			t = mkOr(t, r.recordHasAny(c, chars))
+		}
+	}
+	return t
 }
 
 // renderRecord renders a *struct{Name string; Children []*same} value (possibly wrapped in an interface).
